@@ -696,6 +696,12 @@ impl<'a> Gen<'a> {
         // recursion is possible through itself with a decreasing guard: keep it simple, call
         // only earlier macros
         let mut body = vec![Stmt::Text(format!("({name}:"))];
+        // every parameter is printed, so that which argument or default was bound to which
+        // parameter is always visible in the output
+        for (p, _, _) in &sig_params {
+            body.push(Stmt::Emit(Expr::Var(p.clone())));
+            body.push(Stmt::Text(",".into()));
+        }
         body.extend(self.body(depth - 1, 3));
         if uses_caller {
             let e = self.caller_call(1).unwrap();
@@ -727,11 +733,27 @@ impl<'a> Gen<'a> {
             params.push((p.clone(), None));
             scope.push((p, *ty));
         }
+        // further caller parameters with (different) literal defaults that the macro never passes
+        for _ in 0..self.tape.pick(3) {
+            let p = self.fresh("cp");
+            let (ty, default) = if self.tape.chance(50) {
+                (Ty::Int, Expr::int(self.tape.pick(9) as i128))
+            } else {
+                (Ty::Str, Expr::str(WORDS[self.tape.pick(WORDS.len())]))
+            };
+            params.push((p.clone(), Some(default)));
+            scope.push((p, ty));
+        }
+        let echo: Vec<String> = scope.iter().map(|(p, _)| p.clone()).collect();
         // the call body sees the enclosing variables as they are at the call
         self.scopes.push(scope);
         let saved_loop = std::mem::replace(&mut self.loop_depth, 0);
         let was_macro = std::mem::replace(&mut self.in_macro, true);
         let mut body = vec![Stmt::Text("(c:".into())];
+        for p in echo {
+            body.push(Stmt::Emit(Expr::Var(p)));
+            body.push(Stmt::Text(",".into()));
+        }
         body.extend(self.body(depth.saturating_sub(1), 2));
         body.push(Stmt::Text(")".into()));
         self.in_macro = was_macro;
